@@ -32,6 +32,8 @@ def make_scripts(chk, n_sim, n_rand, n_inorder):
         scripts.append(F.script_from_behaviour(b, "sim%d" % i, rnd))
     for i in range(n_rand):
         scripts.append(F.random_script("rnd%d" % i, rnd))
+    for rep in range(3):
+        scripts += [dict(s, id=s["id"] + "-%d" % rep) for s in F.recovery_stories()]
     behs2 = chk.tlc_simulate("Forwarder", "Forwarder_sim_inorder.cfg", n_inorder, 120, chk.seed + 1)
     for i, b in enumerate(behs2):
         scripts_io.append(F.script_from_behaviour(b, "simio%d" % i, rnd, inorder=True))
